@@ -7,8 +7,8 @@ int64_t __CPROVER_uninterpreted_key_i64(lambda_t, CgroupContext);
 #ifdef UNIT_SORT
 #define KEYF(k, c) __CPROVER_uninterpreted_key_i64(k, c)
 #else
-int64_t KillPgScan__rankForKilling__lambda_2(CgroupContext cgroup_ctx);
-#define KEYF(k, c) KillPgScan__rankForKilling__lambda_2(c)
+int64_t KillPgScan__rankForKilling__lambda_sortDescWithKillPrefs(CgroupContext cgroup_ctx);
+#define KEYF(k, c) KillPgScan__rankForKilling__lambda_sortDescWithKillPrefs(c)
 #endif
 int __CPROVER_uninterpreted_pgr_has(CgroupContext); int64_t __CPROVER_uninterpreted_pgr_val(CgroupContext);
 opt_int64_t CgroupContext__pg_scan_rate(CgroupContext c) { opt_int64_t o; o.has = __CPROVER_uninterpreted_pgr_has(c) != 0; o.val = __CPROVER_uninterpreted_pgr_val(c); return o; }
@@ -16,7 +16,7 @@ opt_int64_t CgroupContext__pg_scan_rate(CgroupContext c) { opt_int64_t o; o.has 
 #define DOC_PRED(c) (DOC_KEY(c) > 0)                                                                              /* eligibility: a positive increase */
 #include "kill_sort.h"
 #include "kill_sort_proofs.h"
-#define LAMBDA_ID__KillPgScan__rankForKilling__lambda_2 ((lambda_t)2)
+#define LAMBDA_ID__KillPgScan__rankForKilling__lambda_sortDescWithKillPrefs ((lambda_t)2)
 #define LOOPC_KillPgScan__rankForKilling_1 \
   __CPROVER_assigns(__begin2, num_missing_pg_scan, num_invalid) \
   __CPROVER_loop_invariant(__begin2.vid == __end2.vid && __begin2.n == __end2.n && __begin2.i <= __end2.i && __end2.i == __end2.n && __end2.n == cgroups.n) \
@@ -24,13 +24,13 @@ opt_int64_t CgroupContext__pg_scan_rate(CgroupContext c) { opt_int64_t o; o.has 
   __CPROVER_decreases(__end2.i - __begin2.i)
 Fs_DirFd CgroupContext__fd(CgroupContext c) { Fs_DirFd d; return d; }
 _Bool Fs__isCgroupValid(Fs_DirFd d) { return nondet_bool(); }
-_Bool KillPgScan__rankForKilling__lambda_1(CgroupContext cgroup_ctx)
+_Bool KillPgScan__rankForKilling__lambda_filter(CgroupContext cgroup_ctx)
   __CPROVER_requires(ghost_exc == 0) __CPROVER_assigns()
   __CPROVER_ensures((__CPROVER_return_value != 0) == DOC_PRED(cgroup_ctx) && ghost_exc == 0) /*@C09*/;
-int64_t KillPgScan__rankForKilling__lambda_2(CgroupContext cgroup_ctx)
+int64_t KillPgScan__rankForKilling__lambda_sortDescWithKillPrefs(CgroupContext cgroup_ctx)
   __CPROVER_requires(ghost_exc == 0) __CPROVER_assigns()
   __CPROVER_ensures(__CPROVER_return_value == DOC_KEY(cgroup_ctx) && ghost_exc == 0) /*@C09*/;
-DEFINE_GHOST_FILTER(KillPgScan__rankForKilling__lambda_1, KillPgScan__rankForKilling__lambda_1)
+DEFINE_GHOST_FILTER(KillPgScan__rankForKilling__lambda_filter, KillPgScan__rankForKilling__lambda_filter)
 #define DOC_BETTER(x, f) (PREF(x) > PREF(f) || (PREF(x) == PREF(f) && DOC_KEY(x) > DOC_KEY(f)))
 vec_CgroupContext KillPgScan__rankForKilling(KillPgScan *self, OomdContext *ctx, vec_CgroupContext cgroups)
   __CPROVER_requires(cgroups.n <= VEC_MAX && !g_sorted && ghost_exc == 0)
@@ -41,6 +41,6 @@ vec_CgroupContext KillPgScan__rankForKilling(KillPgScan *self, OomdContext *ctx,
   /* every eligible cgroup is considered: one exists => something is chosen, and none of them ranks strictly before the first choice */
   __CPROVER_ensures(g_fw >= cgroups.n || !DOC_PRED(ELEM(cgroups.vid, g_fw)) ||
                     (__CPROVER_return_value.n > 0 && !DOC_BETTER(ELEM(cgroups.vid, g_fw), vec_CgroupContext__elem(__CPROVER_return_value.vid, 0)))) /*@C09*/;
-void h_pred(void) { CgroupContext c; HAVOC_SORT(); KillPgScan__rankForKilling__lambda_1(c); CANARY; }
-void h_key(void) { CgroupContext c; HAVOC_SORT(); KillPgScan__rankForKilling__lambda_2(c); CANARY; }
+void h_pred(void) { CgroupContext c; HAVOC_SORT(); KillPgScan__rankForKilling__lambda_filter(c); CANARY; }
+void h_key(void) { CgroupContext c; HAVOC_SORT(); KillPgScan__rankForKilling__lambda_sortDescWithKillPrefs(c); CANARY; }
 void h_rank(void) { KillPgScan *s; OomdContext *x; vec_CgroupContext v; HAVOC_SORT(); KillPgScan__rankForKilling(s, x, v); CANARY; }
